@@ -354,6 +354,30 @@ func VerifC03Views() {
 	}
 	_, err = wrong.Unmarshal(blk)
 	verifAssert("C03.view.wrong-profile", err != nil)
+	// the same view object decodes a second, different block as a fresh one would
+	// (the accessors above have been called in between)
+	var blk2 []byte
+	id2, v2 := verifU8("second.id"), verifBytes("second.val", 2)
+	switch kind {
+	case 1:
+		verifAssume(id2 >= 1)
+		verifAssume(id2 <= 14)
+		blk2 = []byte{0xBE, 0xDE, 0, 1, id2<<4 | 1, v2[0], v2[1], 0}
+	case 2:
+		verifAssume(id2 >= 1)
+		blk2 = []byte{0x10, 0x00, 0, 1, id2, 2, v2[0], v2[1]}
+	default:
+		id2 = 0
+		blk2 = []byte{uint8(w.profile >> 8), uint8(w.profile), 0, 1, v2[0], v2[1], verifU8("second.b2"), verifU8("second.b3")}
+		v2 = blk2
+	}
+	n, err = ext.Unmarshal(blk2)
+	verifAssert("C03.view.reuse-accept", err == nil && n == len(blk2))
+	ids2 := ext.GetIDs()
+	verifAssert("C03.view.reuse-ids", len(ids2) == 1 && ids2[0] == id2)
+	verifAssert("C03.view.reuse-get", verifEqBytes(ext.Get(id2), v2))
+	out2, err := ext.Marshal()
+	verifAssert("C03.view.reuse-marshal", err == nil && verifEqBytes(out2, blk2))
 	if w.termAt >= 0 {
 		verifCover("C03.view.terminator")
 	}
